@@ -11,7 +11,7 @@ JUDGES = ["c16"]
 
 def main(tier: str, seed: int) -> int:
     run = Run(PROP, tier, seed)
-    nos = {"soi": False, "push_empty": True, "trivia_refs": True, "trivia_explicit": True, "zero_counts": True, "zero_width_stack_reps": True, "skipuntil_ci": True, "ci_nonascii": True}
+    nos = {"more_builtins": True, "soi": False, "push_empty": True, "trivia_refs": True, "trivia_explicit": True, "zero_counts": True, "zero_width_stack_reps": True, "skipuntil_ci": True, "ci_nonascii": True}
     extra = {"extra_alpha": " #", "profile_overrides": nos, "c16_inputs": run.pick(40, 120)}
     shards = []
     shards += E.random_shards(PROP, run, JUDGES, profile="full", count=run.pick(45, 500), cap=run.pick(60, 160), maxlen=run.pick(3, 4), extra=extra)
